@@ -51,6 +51,25 @@ func c16Sets() []*sgen.Schema {
 				Args: []*sgen.Arg{{Name: "names", Type: L(N("String")), HasDef: true, Default: []interface{}{"x"}}, {Name: "n", Type: N("Int"), HasDef: true, Default: 3}}},
 			{Kind: sgen.KObject, Name: "T", Dirs: []sgen.DirUse{{Name: "tag"}}, Fields: []*sgen.Field{{Name: "x", Type: N("Int"), Dirs: []sgen.DirUse{{Name: "tag", Args: []sgen.KV{{Name: "n", Value: 1}}}}}}},
 		}},
+		// union members and interfaces listed in an order that differs from the order the types arrive in
+		{Defs: []*sgen.Def{
+			{Kind: sgen.KObject, Name: "Query", Fields: []*sgen.Field{f("u", N("U")), f("i", N("I"))}},
+			{Kind: sgen.KObject, Name: "X", Implements: []string{"I", "J"}, Fields: []*sgen.Field{f("a", N("Int"))}},
+			{Kind: sgen.KObject, Name: "Y", Implements: []string{"J", "I"}, Fields: []*sgen.Field{f("a", N("Int")), f("y", N("X"))}},
+			{Kind: sgen.KObject, Name: "Z", Fields: []*sgen.Field{f("c", N("Int"))}},
+			{Kind: sgen.KUnion, Name: "U", Members: []string{"Z", "X", "Y"}},
+			{Kind: sgen.KInterface, Name: "I", Fields: []*sgen.Field{f("a", N("Int"))}},
+			{Kind: sgen.KInterface, Name: "J", Fields: []*sgen.Field{f("a", N("Int"))}},
+		}},
+		{Defs: []*sgen.Def{
+			{Kind: sgen.KObject, Name: "Query", Fields: []*sgen.Field{f("u", N("U"))}},
+			{Kind: sgen.KObject, Name: "X", Fields: []*sgen.Field{f("a", N("Int"))}},
+			{Kind: sgen.KObject, Name: "W", Fields: []*sgen.Field{f("w", N("Int"))}},
+			{Kind: sgen.KObject, Name: "V", Fields: []*sgen.Field{f("v", N("Int"))}},
+			{Kind: sgen.KUnion, Name: "U", Members: []string{"X"}},
+			{Kind: sgen.KUnion, Name: "U", Extend: true, Members: []string{"X2", "W", "V"}},
+			{Kind: sgen.KObject, Name: "X2", Fields: []*sgen.Field{f("b", N("Int"))}},
+		}},
 		{Defs: []*sgen.Def{
 			{Kind: sgen.KObject, Name: "Query", Fields: []*sgen.Field{f("a", N("A"))}},
 			{Kind: sgen.KObject, Name: "A", Fields: []*sgen.Field{f("id", N("ID"))}},
